@@ -16,13 +16,13 @@ CHECKS = {
 _T = "contract-based deductive verification (pyvc: symbolic execution of the real functions under a numpy model -> SMT obligations, z3/cvc5)"
 CHECKS.update({
     "C04": {"level": "proof", "technique": _T + "; loop invariant (R-loopcut) for every repetition count; bounded run-time contracts",
-            "text": "SAM approximation proved sound, never looser than SA, monotone and self-consistent for every repetition count (cut loop with inductive invariant + frame), all knowledge sets, all SAM games at n=3,4; registered counts bounded on the real package for larger n.",
+            "text": "SAM approximation proved sound, never looser than SA, monotone and self-consistent for every repetition count (cut loop with inductive invariant + frame), all knowledge sets, all SAM games at n=3,4; registered counts bounded on the real package for larger n. The memoised relation structure (ids, relation codes, size order) is checked against bit arithmetic for every n = 1..10 and the real computer is run at n = 9 (bounded).",
             "note": _NOTE},
     "C05": {"level": "proof", "technique": _T,
-            "text": "Exploitability identities proved for every real bound table with known grand coalition per n=2..6 (8 thorough): equals summed best-case Shapley gain and the binomial gap; non-negativity, zero iff degenerate, domination of every completion.",
+            "text": "Exploitability identities proved for every real bound table with known grand coalition per n=2..6 (8 thorough): equals summed best-case Shapley gain and the binomial gap; non-negativity, zero iff degenerate, domination of every completion. Also with every other public entry point of the Shapley / exploitability modules used first in the same process (memoised tables must not be disturbed).",
             "note": _NOTE},
     "C06": {"level": "proof", "technique": _T + "; spec enumerates the n! orderings",
-            "text": "Both Shapley entry points proved equal to the average marginal contribution over all orderings for all real games per n=2..6 (7 thorough); efficiency, null player, relabelling, linearity on the code's outputs.",
+            "text": "Both Shapley entry points proved equal to the average marginal contribution over all orderings for all real games per n=2..6 (7 thorough); efficiency, null player, relabelling, linearity on the code's outputs. The contribution coefficients of the real helper are compared with exact integers for every n = 1..100 (exhaustive over the player counts a double can express).",
             "note": _NOTE},
     "C07": {"level": "proof", "technique": _T + "; relational before/after-reveal obligations; ghost lemmas; lattice edges bounded",
             "text": "Intervals shrink under a true reveal: spec-level lemma for all K, code-level relational proof for the SA computers (n=3..5) and, through a relational loop invariant, for the SAM approximation with EVERY repetition count (n=3,4); gap-function contracts, monotonicity lemmas, zero at full knowledge.",
@@ -40,7 +40,7 @@ CHECKS.update({
             "text": "For textbook-superadditive games (region R1) normalisation proved to map into [0,1] with singletons 0 and grand coalition 1, stay superadditive, agree between graph and table form, and round-trip exactly, for all real games per n=2..4 (5 thorough). Games accepted only through the library tolerance (R2) are the listed known finding C15-near-additive.",
             "note": _NOTE + "; float residue cases decided only by bounded runs"},
     "C17": {"level": "proof", "technique": _T + "; abstract view + representation invariant, one obligation set per public method from an arbitrary invariant state",
-            "text": "Every public method of IncompleteCooperativeGame proved against the view (known, lower, upper) with whole-view postconditions and frames, per n=1..4 (5 thorough); histories follow by induction; random histories bounded.",
+            "text": "Every public method of IncompleteCooperativeGame proved against the view (known, lower, upper) with whole-view postconditions and frames, per n=1..4 (5 thorough); histories follow by induction; random histories bounded. Bulk operations are driven with int64 / list-of-int / float32 / bool arguments in the bounded histories (dtype is invisible to the real-valued model).",
             "note": _NOTE + "; NaN modelled as a poison symbol; coalition lists with repeated ids only bounded"},
     "C18": {"level": "proof", "technique": _T + "; z3 bit-vectors (16/24 bit) for scalar coalition operations, all pairs at once; exhaustive enumeration per n for list-valued functions",
             "text": "Scalar coalition operations proved against elementwise set semantics for all pairs of 16-bit coalitions (every n<=16); enumerations exhaustive for n=1..10; predicates proved equivalent to their definitions on symbolic games n<=3 (4 thorough).",
@@ -50,19 +50,19 @@ CHECKS.update({
 _A6 = "; assumed contracts (A6): file system / JSON identity / RNG supports / exp / networkx adjacency as listed in the evidence"
 CHECKS.update({
     "C10": {"level": "other", "technique": _T + " with a symbolic RNG (draws = symbols constrained by support, integer draws enumerated); bounded run-time contracts on the real registry",
-            "text": "Mixed: builders and registry partials proved (raises nothing, shape, v(empty)=0, exact superadditivity, monotonicity, draws only from the supplied generator) for every outcome of the random draws at n=3..4; covg/oxs and float-level membership bounded on the real registry n=3..6.",
+            "text": "Mixed: builders and registry partials proved (raises nothing, shape, v(empty)=0, exact superadditivity, monotonicity, draws only from the supplied generator) for every outcome of the random draws at n=3..4; covg/oxs and float-level membership bounded on the real registry n=3..6. Each key's game is also compared with the one a fresh fork()ed process returns for the same key, n and seed (determinism across process histories).",
             "note": _NOTE + _A6},
     "C19": {"level": "other", "technique": _T + " over an abstract file system with effect trace (SpecFS) and a symbolic earlier mapping; real-file round trips bounded",
             "text": "save_json's contract (existing name: no effect; new name: old mapping + entry) proved for an arbitrary earlier mapping; the whole save() pipeline (all registered savers, matplotlib inert) writes exactly the matrices it was given and leaves the caller's matrices untouched; Output.from_json(json(out)) carries symbolic matrices through; byte-level round trip rests on json/numpy and is bounded on real files.",
             "note": _NOTE + _A6},
     "C20": {"level": "proof", "technique": _T + " over an abstract file system: all-or-nothing invariant checked after every prefix of the effect trace; crash injection on the real function as replay",
-            "text": "For an arbitrary earlier mapping the results file is, after every prefix of save_json's effect trace, exactly the old or a complete new document (single atomic replace); replayed with the k-th write/close/replace failing on real files.",
+            "text": "For an arbitrary earlier mapping the results file is, after every prefix of save_json's effect trace, exactly the old or a complete new document (single atomic replace); replayed with the k-th write/close/replace failing on real files. The initial state includes files left behind by an earlier crashed save (stale bytes of unknown length); os.open flags, tempfile and shutil.move (atomic only within one directory) are part of the file-system contract; fault injection hooks every C-level file-system verb and also runs with the results directory on another file system.",
             "note": _NOTE + _A6},
 })
 
 CHECKS.update({
     "C14": {"level": "other", "technique": _T + "; object invariant from an arbitrary symbolic state, QF_NRA orthogonality; configurations enumerated; float32 histories bounded",
-            "text": "Mixed: constructor/ranking bijection for every configuration (concrete execution under the model); strategies are distributions, one iteration preserves the regret invariant, orthogonality (n=3, limits 1-2; QF_NRA beyond both solvers above that), plus-clipping and save/load proved from an arbitrary invariant state with symbolic terminal values and iteration counter; float32 runs bounded.",
+            "text": "Mixed: constructor/ranking bijection for every configuration (concrete execution under the model); strategies are distributions, one iteration preserves the regret invariant, orthogonality (n=3, limits 1-2; QF_NRA beyond both solvers above that), plus-clipping and save/load proved from an arbitrary invariant state with symbolic terminal values and iteration counter; float32 runs bounded. The current strategy is proved to be regret matching on this minimiser's own regrets also when a second minimiser is alive and asked first; native twins against the same history in a fork()ed process.",
             "note": _NOTE + _A6 + "; orthogonality at n=4 bounded only (QF_NRA beyond both solvers)"},
 })
 
@@ -74,10 +74,10 @@ CHECKS.update({
             "text": "Mixed: trajectories proved for a symbolic hidden game and every valid policy (eval_one all limits at n=3, limit 2 at n=4; evaluate with processes=1); equality across worker counts / non-replay decided only by bounded real-pool runs, where the listed finding C12-pool-rng-replay shows.",
             "note": _NOTE + "; pickling/chunking/shared RNG state are outside any contract in reach; statistical independence not decidable"},
     "C13": {"level": "proof", "technique": _T + "; solver contracts at enumerated environment states with a symbolic hidden game; random choices enumerated by forking",
-            "text": "Every registered solver proved to return a valid action by its rule (ties to the lowest index) and to restore the environment's whole view, at all states for n=3 and selected states for n=4; expected-greedy proved to extend by a mean-minimising coalition without repeats with a non-increasing curve (n=3; n=4 one step, two steps thorough).",
+            "text": "Every registered solver proved to return a valid action by its rule (ties to the lowest index) and to restore the environment's whole view, at all states for n=3 and selected states for n=4; expected-greedy proved to extend by a mean-minimising coalition without repeats with a non-increasing curve (n=3; n=4 one step, two steps thorough). 'Leaves the environment as it found it' includes the identity of the environment's game object and the state of that object as seen by a caller holding it.",
             "note": _NOTE + _A6 + "; n=4/5 states and comparison with the exhaustive optimum bounded"},
     "C16": {"level": "proof", "technique": _T + "; wrapper proved over the real inner environment in an arbitrary invariant state; np.random.choice as a nondeterministic-choice contract",
-            "text": "ICG_Gym_Linear proved against its contract for every chosen set at once and every tie-break, n=3,4 (5 thorough): mask, per-size observation of length n, step reveals exactly one unknown coalition of the chosen size and forwards reward/done, reset.",
+            "text": "ICG_Gym_Linear proved against its contract for every chosen set at once and every tie-break, n=3,4 (5 thorough): mask, per-size observation of length n, step reveals exactly one unknown coalition of the chosen size and forwards reward/done, reset. Consecutive steps without any mask query in between are covered symbolically (every tie-break) and in the bounded layer.",
             "note": _NOTE + "; gymnasium stubbed; length-n clause under the call site's precondition (minimal initial knowledge)"},
 })
 NOT_APPLICABLE = {}
